@@ -2,6 +2,7 @@ import IofloModel.Model.Clauses
 import IofloModel.Drv.Proto
 /-! driver for the clause-loop model (engine `clauses`).
 
+request  `region <D9|D51|D52|D53> <clauses>`   clause texts `tok,tok;tok,tok`; reply 0|1 (the Lean region predicate)
 request  `<verb> <fix 0|1> <tokens>`   verb = framer | frame | do | aux | rear | log | logger | server | marker |
          direct | indirect | indirectnode | fields | relation;  tokens = comma-separated hex (UTF-8), `-` = none
 reply    `ERR parse|value|type|index|overflow`  or  `ok key=value …`
@@ -100,8 +101,24 @@ def run (verb : String) (fix : Bool) (toks : List Str) : Option String :=
   | "relation" => some (out (parseRelation toks []) fun (p, rest) => s!"relation={encode p} rest={showToks rest}")
   | _ => none
 
+/-- clause texts: clauses separated by `;`, tokens by `,` -/
+def decodeClauses (w : String) : Option (List (List Str)) :=
+  if w == "-" then some [] else (w.splitOn ";").mapM decodeToks
+
+def region (id : String) (cs : List (List Str)) : Option Bool :=
+  match id with
+  | "D9" => some (d9Region cs)
+  | "D51" => some (d51Region cs)
+  | "D52" => some (d52Region cs)
+  | "D53" => some (d53Region cs)
+  | _ => none
+
 def step (_ : Unit) (line : String) : Unit × String :=
   match words line with
+  | ["region", id, cls] =>
+    match decodeClauses cls with
+    | some cs => (match region id cs with | some b => ((), b01 b) | none => ((), "bad-op"))
+    | none => ((), "bad-op")
   | [verb, fix, toks] =>
     match decodeToks toks with
     | some ts =>
